@@ -64,6 +64,8 @@ CommandSignature ShellCommand::getSignature() const {
     code = code.combine(int(depsStyle));
     code = code.combine(int(inheritEnv));
     code = code.combine(int(canSafelyInterrupt));
+    code = code.combine(workingDirectory);
+    code = code.combine(int(controlEnabled));
   }
   signature = code;
   if (signature.isNull()) {
